@@ -380,6 +380,81 @@ def fmt(h):
     return "; ".join(out)
 
 
+
+# -- functions without retrievable source -------------------------------------------------------
+# (built with exec/compile from a string: get_func_code falls back on an identifier derived from the code object).
+# Versions differ ONLY in a constant (A/B) or only in a global name (C/D): identical instruction streams.
+
+NOSRC_VERSIONS = {
+    "A": ("def f(x):\n    return ('vA', x)\n", "vA"),
+    "B": ("def f(x):\n    return ('vB', x)\n", "vB"),
+    "C": ("def f(x):\n    return (TAG_C, x)\n", "vC"),
+    "D": ("def f(x):\n    return (TAG_D, x)\n", "vD"),
+}
+NOSRC_EVENTS = [("def", v) for v in "ABCD"] + [("call", 0), ("call", 1), ("restart",)]
+
+
+def nosrc_histories(depth):
+    out = []
+    for n in range(2, depth + 1):
+        for rest in __import__("itertools").product(NOSRC_EVENTS, repeat=n - 1):
+            for first in "ABCD":
+                h = (("def", first),) + rest
+                if h[-1][0] != "call":
+                    continue        # only histories ending in a call observe anything new
+                out.append(h)
+    return out
+
+
+def _nosrc_work(chunk):
+    import joblib
+    import joblib.memory as M
+    import logging
+    import warnings
+    logging.disable(logging.CRITICAL)
+    warnings.simplefilter("ignore")
+    root = core.scratch_dir("c12n-%d" % os.getpid())
+    n = 0
+    viols = {}
+    for h in chunk:
+        loc = os.path.join(root, "c")
+        shutil.rmtree(loc, ignore_errors=True)
+        M._FUNCTION_HASHES.clear()
+        mem = joblib.Memory(loc, verbose=0)
+        cur = None
+        cf = None
+        seen_versions = []
+        for i, ev in enumerate(h):
+            if ev[0] == "def" or ev[0] == "restart":
+                if ev[0] == "restart":
+                    M._FUNCTION_HASHES.clear()
+                    mem = joblib.Memory(loc, verbose=0)
+                else:
+                    cur = ev[1]
+                    seen_versions.append(cur)
+                ns = {"__name__": "vf_c12_nosrc", "TAG_C": "vC", "TAG_D": "vD"}
+                exec(compile(NOSRC_VERSIONS[cur][0], "<string>", "exec"), ns)
+                cf = mem.cache(ns["f"])
+                continue
+            n += 1
+            want = (NOSRC_VERSIONS[cur][1], ev[1])
+            try:
+                got = cf(ev[1])
+            except Exception as e:  # noqa
+                got = ("EXC", type(e).__name__, str(e)[:120])
+            if got != want:
+                pair = "".join(sorted({cur, [v for v in "ABCD" if NOSRC_VERSIONS[v][1] == got[0]][0]})) if isinstance(got, tuple) and got[:1] != ("EXC",) and got[0] in ("vA", "vB", "vC", "vD") else "?"
+                sig = "wrong-version|no-source|%s%s" % ("const-only-edit" if pair == "AB" else "name-only-edit" if pair == "CD" else "other-edit" if pair != "?" else "raises",
+                                                        "+after-restart" if ("restart",) in h[:i] else "")
+                if sig not in viols:
+                    viols[sig] = [sig, "function built from a string (no retrievable source), history %s: call returned %r instead of %r" % (
+                        " ; ".join("%s %s" % (e[0], e[1]) if len(e) > 1 else e[0] for e in h[:i + 1]), got, want),
+                        {"part": "nosource", "history": [list(e) for e in h[:i + 1]]}]
+                break
+    shutil.rmtree(root, ignore_errors=True)
+    return {"n": n, "viol": list(viols.values()), "histories": len(chunk)}
+
+
 def run(ctx):
     quick = ctx.tier == "quick"
     depth = 5 if quick else 7
@@ -406,6 +481,15 @@ def run(ctx):
             ctx.violation(*v)
         if k % 5 == 1:
             ctx.sample(res["sample"])
+    nh = nosrc_histories(5 if quick else 6)
+    ncalls = 0
+    for res in core.pmap(_nosrc_work, [nh[i::32] for i in range(32)]):
+        ncalls += res["n"]
+        for v in res["viol"]:
+            ctx.violation(*v)
+    ctx.sample({"no_source_part": "functions built with exec() from a string (no retrievable source), versions differing only in a constant (A/B) "
+                                  "or only in a global name (C/D); all histories of define A-D / call 0,1 / restart up to depth %d ending in a call" % (5 if quick else 6),
+                "histories": len(nh), "calls_judged": ncalls})
     ctx.rule = ("BFS over histories of {define v1/v2/v3(=text of v1)%s, call newest/older definition with argument 0/1, %srestart} "
                 "up to depth %d for function kinds %s; at most the two most recent definitions stay referenced; states merged on "
                 "(digest of cache directory contents and source file, live definitions' code tags, membership in the in-memory "
@@ -415,10 +499,18 @@ def run(ctx):
     ctx.assumptions += ["version identity is the source text; every version returns values tagged with its version",
                         "restart = forked child with joblib.memory._FUNCTION_HASHES cleared, re-importing the file on disk"]
     return {"states": states, "transitions": trans, "traces_validated_against_impl": trans, "evaluations": trans,
-            "distinct_nontrivial": states, "max_depth": maxd}
+            "distinct_nontrivial": states, "max_depth": maxd, "no_source_histories": len(nh), "no_source_calls": ncalls}
 
 
 def replay(data):
+    if data.get("part") == "nosource":
+        res = _nosrc_work([tuple(tuple(e) for e in data["history"])])
+        for v in res["viol"]:
+            print(v[0], v[1])
+        if res["viol"]:
+            print("VIOLATION property=C12 replay=<this file>")
+            return 1
+        return 0
     d = core.scratch_dir("c12r")
     h = [tuple(e) for e in data["history"]]
     bad = []
